@@ -369,3 +369,35 @@ def gen_multi(tier, rng):
             steps = [{"m": "advertised[pick]", "pick": rng.randrange(1000), "args": {}, "r": [rng.randrange(100), rng.randrange(100)]} for _ in range(8 if quick else 40)]
             cases.append({"block": "netmulti", "net": n, "space": sp, "static": {}, "cfg": {}, "init": {}, "steps": steps, "every": 3, "src": "walk-oracle-only"})
     return cases, True
+
+
+# ------------------------------------------------------------------ Conv3d CNN (multi-agent image observations): oracle only
+class CNN3d(B.CNN):
+    name = "cnn3d"
+    DEPTH = 2
+
+    def kwargs(self, case):
+        kw = super().kwargs(case)
+        c, h, w = case["static"]["input_shape"]
+        kw["block_type"] = "Conv3d"
+        kw["sample_input"] = torch.zeros(1, c, self.DEPTH, h, w)
+        return kw
+
+    def make_input(self, case, b):
+        c, h, w = case["static"]["input_shape"]
+        return torch.rand(b, c, self.DEPTH, h, w)
+
+    def coq(self, case, obs):
+        return None
+
+
+def gen_cnn3d(tier, rng):
+    cases = []
+    for w in range(2 if tier == "quick" else 10):
+        static = {"input_shape": [2, 24, 24], "num_outputs": 4, "layer_norm": rng.random() < 0.5, "init_layers": False}
+        cfg = {"min_hidden_layers": 1, "max_hidden_layers": 4, "min_channel_size": 8, "max_channel_size": 48}
+        steps = [S(rng.choice(["add_layer", "remove_layer", "change_kernel", "change_kernel", "add_channel", "remove_channel"]),
+                   (rng.randrange(100), rng.randrange(100))) for _ in range(12 if tier == "quick" else 60)]
+        cases.append({"block": "cnn3d", "static": static, "cfg": cfg, "init": {"channels": [8, 8], "kernels": [3, 3], "strides": [1, 1]},
+                      "steps": steps, "every": 3, "src": "walk-oracle-only"})
+    return cases, True
